@@ -241,6 +241,32 @@ def run(rep: common.Report, tier: str, seed: int, replay=None) -> int:
                 if mm:
                     rep.violation(f"mesh {nm} differs from the original in {mm}", {"device": di})
             rep.count(1)
+        # meshes of other sizes: a three-site mesh, and meshes whose site / edge counts cross 2**16 (index widths)
+        from scipy.spatial import Delaunay as _Del
+        size_cases = [("tiny", np.array([[0.0, 0.0], [1.0, 0.1], [0.3, 0.9], [1.2, 1.1]]))]
+        for nsite in ([23000] if tier == "quick" else [23000, 40000, 70000]):
+            size_cases.append((f"{nsite} sites", None))
+        for nm_, pts in size_cases:
+            try:
+                if pts is None:
+                    big = meshes.delaunay_mesh(rng, int(nm_.split()[0]), "jitter")
+                else:
+                    big = Mesh.from_triangulation(pts, _Del(pts).simplices)
+                with h5py.File(os.path.join(td, "big.h5"), "w") as f:
+                    big.to_hdf5(f.create_group("full"), compress=False)
+                    big.to_hdf5(f.create_group("small"), compress=True)
+                with h5py.File(os.path.join(td, "big.h5"), "r") as f:
+                    bfull, bsmall = Mesh.from_hdf5(f["full"]), Mesh.from_hdf5(f["small"])
+            except Exception as e:  # noqa: BLE001
+                rep.violation(f"mesh round trip raised {type(e).__name__}: {e}"[:160], {"mesh": nm_})
+                continue
+            for what, m2 in (("restored from stored arrays", bfull), ("recomputed after compressed save", bsmall)):
+                mm = same_mesh(big, m2, exact=True)
+                if mm:
+                    rep.violation(f"mesh {what} differs from the original in {mm}",
+                                  {"mesh": nm_, "sites": len(big.sites), "edges": len(big.edge_mesh.edges)})
+            rep.count(1)
+            rep.nontrivial(("mesh-size", nm_))
         # pickling of devices' parameters is covered by C16; plain Parameter pickles here
         for kind, mk in param_kinds.items():
             obj = mk()
